@@ -70,6 +70,7 @@ def run(ctx):
     ctx.coverage.update({
         "traces_validated_against_impl": tot["accepted"],
         "traces_rejected": tot["rejected"],
+        "flaky_rejections": tot["flaky"],   # traces rejected once that were accepted in both re-executions of the same schedule (not counted)
         "evaluations": tot["replayed"],
         "distinct_nontrivial": len(tot["distinct"]),
         "rule": "one case = one TLC-generated schedule (configuration: trigger keys, filters, connections, start outcome; sequence of releases of "
